@@ -116,6 +116,8 @@ type opRec struct {
 	callerTTL   int64 // TTL(ctx) observed by the caller after Get returned
 	hadCtxTTL   bool
 	builds      []*buildRec
+
+	locksAtInvoke []string // per-key build locks held when the Get was invoked (hook observation)
 }
 
 func (o *opRec) id() string { return fmt.Sprintf("c%d.%d", o.client, o.idx) }
@@ -260,6 +262,9 @@ type foRun struct {
 	failedTTL time.Duration
 
 	daemons []string
+
+	noFaults   bool
+	apiStopped bool
 }
 
 func (r *foRun) cfgUpdateTTL() time.Duration {
@@ -300,7 +305,7 @@ func (r *foRun) beRead(ctx context.Context, k []byte, real func() (interface{}, 
 	r.nRead++
 	r.calls = append(r.calls, c)
 
-	if contains(r.sc.Faults.ReadErrAt, c.ordinal) {
+	if !r.noFaults && contains(r.sc.Faults.ReadErrAt, c.ordinal) {
 		c.injected = true
 		c.err = ErrTok{K: c.key, ID: fmt.Sprintf("be-read#%d", c.ordinal)}
 		c.retSeq = r.e.s.NextSeq()
@@ -330,10 +335,10 @@ func (r *foRun) beWrite(ctx context.Context, k []byte, v interface{}, real func(
 	r.calls = append(r.calls, c)
 
 	refresh := time.Duration(c.ttlNs) == r.updateTTL && r.isOldToken(v)
-	fail := contains(r.sc.Faults.WriteErrAt, c.ordinal)
+	fail := !r.noFaults && contains(r.sc.Faults.WriteErrAt, c.ordinal)
 
 	if refresh {
-		if contains(r.sc.Faults.RefreshErrAt, r.nRefresh) {
+		if !r.noFaults && contains(r.sc.Faults.RefreshErrAt, r.nRefresh) {
 			fail = true
 		}
 
@@ -527,6 +532,16 @@ func (r *foRun) construct() {
 		}
 	}
 
+	stopped := false
+	beStop := r.be.stop
+	r.be.stop = func() {
+		if !stopped {
+			stopped = true
+			beStop()
+		}
+	}
+	e.cleanup = append(e.cleanup, r.be.stop)
+
 	r.updateTTL = r.cfgUpdateTTL()
 	r.failedTTL = r.cfgFailedTTL()
 
@@ -542,6 +557,7 @@ func (r *foRun) construct() {
 			FailHard: sc.Cfg.FailHard, Logger: logger, Stats: stats, ObserveMutability: sc.Cfg.ObserveMutability && stats != nil,
 		}.Use)
 		r.api = genAPI{f}
+		e.cleanup = append(e.cleanup, r.stopAPI)
 	} else {
 		if r.be.plain == nil {
 			panic("failover needs sharded or syncmap backend")
@@ -554,6 +570,14 @@ func (r *foRun) construct() {
 			FailHard: sc.Cfg.FailHard, Logger: logger, Stats: stats, ObserveMutability: sc.Cfg.ObserveMutability && stats != nil,
 		}.Use)
 		r.api = plainAPI{f}
+		e.cleanup = append(e.cleanup, r.stopAPI)
+	}
+}
+
+func (r *foRun) stopAPI() {
+	if !r.apiStopped {
+		r.apiStopped = true
+		r.api.Stop()
 	}
 }
 
@@ -652,6 +676,7 @@ func (r *foRun) doGet(ci, oi int, op *FOOp, shared []byte) []byte {
 
 	build := func(bctx context.Context) (Tok, error) { return r.builder(rec, bctx) }
 
+	rec.locksAtInvoke = r.api.KeyLockNames()
 	rec.inv = e.s.NextSeq()
 	rec.invNs = e.s.NowNs()
 	e.logf("invoke %s Get(%q)%s", rec.id(), key, opFlags(op))
@@ -747,8 +772,13 @@ func (r *foRun) builder(rec *opRec, ctx context.Context) (Tok, error) {
 		r.openBuilds = map[string][]*buildRec{}
 	}
 
-	if open := r.openBuilds[rec.key]; len(open) > 0 && e.sc.Prop == "C01" {
-		e.out.violate("C01.R1", "overlap", "builder for key %q entered by %s (task %s) at seq %d while the build of %s (task %s, entered at seq %d) is still running",
+	if open := r.openBuilds[rec.key]; len(open) > 0 && (e.sc.Prop == "C01" || e.sc.Prop == "C09") {
+		rule, sig := "C01.R1", "overlap"
+		if e.sc.Prop == "C09" {
+			rule, sig = "C09.R4", "two-builds-after-key-rewrite"
+		}
+
+		e.out.violate(rule, sig, "builder for key %q entered by %s (task %s) at seq %d while the build of %s (task %s, entered at seq %d) is still running",
 			rec.key, rec.id(), b.task, b.enter, open[0].op.id(), open[0].task, open[0].enter)
 	}
 
@@ -840,10 +870,10 @@ func runFO(e *env) {
 	}
 
 	// Stop janitors and let them exit.
-	r.api.Stop()
+	r.stopAPI()
 	r.be.stop()
 
-	if v := e.s.Run(); v != zs.Quiescent && e.out.Internal == "" && len(e.out.Violations) == 0 {
+	if v := e.s.Run(); v != zs.Quiescent && quiescent && e.out.Internal == "" && len(e.out.Violations) == 0 {
 		e.out.Internal = "janitors did not stop: " + e.s.StuckInfo
 	}
 
